@@ -77,16 +77,16 @@ def seqAll : List Plan → Plan
 
 /-! ### which tree -/
 
-/-- which of the proposed repairs the modelled tree contains; all `false` = the unchanged tree -/
+/-- which of the two repairs the modelled tree contains; all `false` = the original code (before the fix commits) -/
 structure Fixes where
-  vouch : Bool        -- patches/F-CSV-1.patch: alternates without a signed cdhashes list are refused
-  fatParams : Bool    -- patches/F-CSV-2.patch: `verifyFat` passes Info.plist / CodeResources to every slice
+  vouch : Bool        -- fix F-CSV-1 (994e09d): alternates without a signed cdhashes list are refused
+  fatParams : Bool    -- fix F-CSV-2 (91159af): `verifyFat` passes Info.plist / CodeResources to every slice
   deriving Repr, DecidableEq
 
 def Fixes.orig : Fixes := ⟨false, false⟩
 
-/-- the tree the correspondence runs against (the driver answers for this one) -/
-def tree : Fixes := Fixes.orig
+/-- the tree the correspondence runs against (the driver answers for this one): the current code, both repairs in -/
+def tree : Fixes := ⟨true, true⟩
 
 /-! ### what `parseSignature` yields -/
 
